@@ -41,15 +41,19 @@ def bc_reference(r, name, nondim):
     return {'tidal': (X.ZERO, X.ZERO, (2 * l + 1) / R), 'loading': (-(2 * l + 1) * rho / 3, X.ZERO, (2 * l + 1) / R), 'free': (X.ZERO, X.ZERO, X.ZERO)}[name.lower()]
 
 
-def assembled(chk, repo, rule_surface, rule_iface, rule_love, rule_intact=None, rule_bounds=None, where='TidalPy/RadialSolver/solver.pyx', rule_span=None, types=('tidal', 'loading', 'free')):
+def assembled(chk, repo, rule_surface, rule_iface, rule_love, rule_intact=None, rule_bounds=None, where='TidalPy/RadialSolver/solver.pyx', rule_span=None, types=('tidal', 'loading', 'free'), judge=None, seq_filter=None, tag=''):
+    """judge: the requested types whose solutions are judged (default: all requested); seq_filter: restrict the layer sequences; tag: distinguishes the keys of a second call"""
     d = X.Decider(seed=chk.seed + 81, k=2)
     seqs = layer_sequences(chk.tier)
+    if seq_filter is not None:
+        seqs = [k_ for k_ in seqs if seq_filter(k_)]
+    judged = lambda tn_: judge is None or tn_ in judge
     pi = X.atom('pi', 'pos'); G = X.atom('Gconst', 'pos')
     n_run = 0
     # the same obligations with internal non-dimensionalisation switched on: what comes back must be the dimensional solution (a subset of the sequences)
     nd_seqs = [k_ for k_ in seqs if len(k_) == 2 and (chk.tier != 'quick' or k_ in (('solid', 'solid'), ('liquid-static', 'solid'), ('solid', 'liquid'), ('liquid', 'solid-static')))]
     for kinds, nondim in [(k_, False) for k_ in seqs] + [(k_, True) for k_ in nd_seqs]:
-        lab = ' / '.join(kinds) + ' (innermost first)' + (', solved non-dimensionalised' if nondim else '')
+        lab = ' / '.join(kinds) + ' (innermost first)' + (', solved non-dimensionalised' if nondim else '') + tag
         try:
             r = SR.run_solver(repo, kinds, types, nondim)
         except AnalysisError as ex:
@@ -66,6 +70,7 @@ def assembled(chk, repo, rule_surface, rule_iface, rule_love, rule_intact=None, 
         topk = kinds[-1]
         bad = []
         for t, tn in enumerate(types):
+            if not judged(tn): continue
             y = row(r, r.total - 1, t, nt)
             b = bc_reference(r, tn, False)
             if is_solid(topk):
@@ -86,6 +91,7 @@ def assembled(chk, repo, rule_surface, rule_iface, rule_love, rule_intact=None, 
             g_int = X.const(1) / 2 * (grav[s_lo] + grav[s_up])
             bad = []
             for t, tn in enumerate(types):
+                if not judged(tn): continue
                 a = row(r, s_lo, t, nt); b = row(r, s_up, t, nt)
 
                 def same(nm):
@@ -120,6 +126,7 @@ def assembled(chk, repo, rule_surface, rule_iface, rule_love, rule_intact=None, 
         gs = grav[-1]
         bad = []
         for t, tn in enumerate(types):
+            if not judged(tn): continue
             y = row(r, r.total - 1, t, nt)
             got = [love.store.get(3 * t + k) for k in range(3)]
             want = [None if y['y5'] is None else y['y5'] - 1, None if y['y1'] is None else gs * y['y1'], None if y['y3'] is None else gs * y['y3']]
@@ -140,6 +147,7 @@ def assembled(chk, repo, rule_surface, rule_iface, rule_love, rule_intact=None, 
                 carried = [nm for nm in lay if nm in NAMES]         # y7 of a static liquid is not part of the output
                 sl_local = ns - 1; sl = li * ns + sl_local
                 for t, tn in enumerate(types):
+                    if not judged(tn): continue
                     yv = row(r, sl, t, nt)
                     if any(yv[nm] is None for nm in carried):
                         bad.append(f'layer {li} ({kd}), {tn}: component(s) {[nm for nm in carried if yv[nm] is None]} not defined'); continue
